@@ -3,6 +3,7 @@
 use std::borrow::Cow;
 use std::cell::UnsafeCell;
 use std::collections::HashMap;
+use std::collections::HashSet;
 use std::sync::Arc;
 use std::sync::atomic::AtomicBool;
 use std::sync::atomic::AtomicUsize;
@@ -207,7 +208,7 @@ pub(crate) struct GlobalCollector {
     // Collect ids whose `CommitCollect`/`DropCollect` was read before their `StartCollect`. The two
     // commands can travel through different threads' queues, and the queues are drained one after
     // another, so a start can be read one cycle later than the commit. Kept for one cycle only.
-    finished_before_start: Vec<usize>,
+    finished_before_start: HashSet<usize>,
 
     // Vectors to be reused by collection loops. They must be empty outside of the
     // `handle_commands` loop.
@@ -225,7 +226,7 @@ impl GlobalCollector {
             reporter: Some(Box::new(reporter)),
 
             active_collectors: HashMap::new(),
-            finished_before_start: vec![],
+            finished_before_start: HashSet::new(),
 
             start_collects: vec![],
             drop_collects: vec![],
@@ -313,7 +314,7 @@ impl GlobalCollector {
         for DropCollect { collect_id } in self.drop_collects.drain(..) {
             // Cancelling a trace is only meaningful when spans are held until the root finishes.
             if self.config.cancelable && self.active_collectors.remove(&collect_id).is_none() {
-                self.finished_before_start.push(collect_id);
+                self.finished_before_start.insert(collect_id);
             }
         }
 
@@ -376,7 +377,7 @@ impl GlobalCollector {
                     &mut active_collector.danglings,
                 );
             } else {
-                self.finished_before_start.push(collect_id);
+                self.finished_before_start.insert(collect_id);
             }
         }
 
